@@ -956,7 +956,10 @@ def check_ctor_case(ctx, case):
         elif what == 'worm_helix':
             cls = WormGear if case['cls'] == 'WormGear' else WormWheel
             kw = dict(n_starts=1) if cls is WormGear else dict(n_teeth=20)
-            cls(name='g', inertia_moment=J, helix_angle=U.Angle(x, case['u']), pressure_angle=U.Angle(case['pa'], 'deg'), **kw)
+            pa = U.Angle(case['pa'], 'deg')
+            if case.get('pau'):
+                pa = pa.to(case['pau'])       # the tabulated pressure angle written in another unit
+            cls(name='g', inertia_moment=J, helix_angle=U.Angle(x, case['u']), pressure_angle=pa, **kw)
         elif what == 'pwm':
             m = DCMotor(name='m', inertia_moment=J, no_load_speed=U.AngularSpeed(1, 'rad/s'), maximum_torque=U.Torque(1, 'Nm'))
             m.pwm = 0.25
@@ -1018,7 +1021,8 @@ def run_ctor_checks(ctx):
         for pa, mx in worm:
             for deg in (rng.uniform(0.5, mx - 0.01), mx - 0.001, mx + 0.001, mx + rng.uniform(0.1, 30)):
                 cases.append({'t': 'ctor', 'what': 'worm_helix', 'cls': rng.choice(['WormGear', 'WormWheel']), 'pa': pa,
-                              'x': float(F(deg) * SI['Angle']['deg'] / SI['Angle'][u]), 'u': u, 'ok': deg <= mx})
+                              'x': float(F(deg) * SI['Angle']['deg'] / SI['Angle'][u]), 'u': u, 'ok': deg <= mx,
+                              'pau': rng.choice([None, None] + [w for w in units_of('Angle') if w != 'deg'])})
         for x in (-1, 1, 0, -1.0000001, 1.0000001, rng.uniform(-1, 1), rng.uniform(1.001, 50), -rng.uniform(1.001, 50)):
             cases.append({'t': 'ctor', 'what': 'pwm', 'x': x, 'ok': -1 <= x <= 1})
     for c in cases:
